@@ -16,7 +16,7 @@ CFG = {
                   "from the concatenation (c10_read_agrees: same data or same error at the Read level; c10_readerx_agrees: same "
                   "values, errors at the same reads, same bytes left). case_sound is a theorem through model_holds-style lemmas "
                   "(round_sound, trunc_sound, rewrite_sound, hist_sound, stream_sound); a refused write is the identity on the buffer (c10_failed_write_identity) and the accepted writes around it still read back (c10_roundtrip_with_refused). The model is tied to the code on every run "
-                  "by six kinds of experiment on the real package (typed programs with all / sampled truncation points, random "
+                  "by seven kinds of experiment on the real package (typed programs with all / sampled truncation points, random "
                   "histories incl. mismatched reads and rewrites, crafted and arbitrary decoder input, rewrites on a partly consumed "
                   "buffer, ReaderX over one-byte / random / empty-chunk / all-at-once sources against BufferX), each outcome "
                   "compared inside Coq with the model (values, error class, bytes left). Proof is the right level: the quantifiers "
@@ -41,8 +41,12 @@ CFG = {
             "on ReaderX and on BufferX over the same bytes; the io.Reader given to NewReaderX is chosen per case: the chunk reader itself, "
             "*bufio.Reader of size 16 / 64 / 4096 (NewReaderSize and NewReader), *bytes.Reader, *strings.Reader, *io.LimitedReader, "
             "iotest.OneByteReader, iotest.HalfReader, a DataErrReader; strings and byte counts of 15..17, 63..65, 4095..4097 bytes around the "
-            "bufio windows). Non-trivial: round = at least one write; trunc = cut < total; hist/rewrite = always; arbitrary bytes = non-empty "
-            "input; hold = at least one kept value; stream = non-empty input and at least one read. distinct = distinct Coq case term.",
+            "bufio windows), CLarge (the same comparison for strings / ReadN / ZReadN / Read blocks of 65535, 65536, 65537, 131071, 131072, "
+            "131073, 196608, 262144 bytes - 1<<20 in the thorough tier - between small fields, over several reader types and chunk sizes; the "
+            "case term carries no large literal: the source is a list of segments, the big ones expanded in Coq and in Go by the same "
+            "two-counter byte generator gen_bytes, and every observed byte string is compared NOT byte for byte but through a digest "
+            "computed on both sides: length, first and last eight bytes, sum of the bytes, sum of the prefix sums). Non-trivial: round = at least one write; trunc = cut < total; hist/rewrite = always; arbitrary bytes = non-empty "
+            "input; hold = at least one kept value; stream = non-empty input and at least one read; large = always. distinct = distinct Coq case term.",
     "trusted": ["Go harness cmd/c10: chunkSrc (the fragmenting io.Reader: one chunk per Read, empty chunks = (0,nil), optional EOF with the last data), "
                 "the reader types wrapped around it (bufio, bytes, strings, io.LimitedReader, testing/iotest; the model is the same for all: an io.Reader delivering these bytes), "
                 "recover wrappers, error-to-enum mapping (errors.Is on io.EOF, io.ErrUnexpectedEOF, bytex.Err*; the text 'varint overflows' for binary's unexported error)",
